@@ -39,6 +39,7 @@ def run(ctx) -> None:
     ctx.rule("C08.nocache", "T4: GPR reading methods keep no derived state", floor=5)
     ctx.rule("C07.eval", "T5: _eval_gpr is the and/or homomorphism (shared with C07)", floor=8)
     check_table(ctx)
+    ctx.guard(check_parser_tokens, ctx)
     check_siblings(ctx)
     check_pickle(ctx)
     check_remover(ctx)
@@ -197,6 +198,7 @@ def _polarity(ctx, fn: FuncInfo, or_test, and_test, or_member, and_member, label
 
 def check_siblings(ctx) -> None:
     check_operand_lists(ctx)
+    ctx.guard(check_equivalence, ctx)
     prog = ctx.prog
     a2s = prog.func("cobra.core.gene", "GPR._ast2str")
     _polarity(ctx, a2s, lambda t: t == "isinstance(op, Or)", lambda t: t == "isinstance(op, And)", lambda x: "' or '.join" in x, lambda x: "' and '.join" in x, "_ast2str")
@@ -336,6 +338,53 @@ def check_operand_lists(ctx) -> None:
         raise AnalysisError("no BoolOp construction found")
 
 
+def check_parser_tokens(ctx) -> None:
+    """from_string rewrites operator spellings only as whole words: every textual substitution of and/or/AND/OR goes
+    through a regular expression with word boundaries on both sides (regex AST), never through str.replace - a gene id
+    such as YOR374W or RAND1 contains the letters of an operator."""
+    import re._parser as sre  # type: ignore
+    import re._constants as sc  # type: ignore
+
+    fn = ctx.prog.func("cobra.core.gene", "GPR.from_string")
+    words = {"and", "or", "AND", "OR", "And", "Or"}
+    n = 0
+    for c in walk_local(fn.node):
+        if not isinstance(c, ast.Call) or not isinstance(c.func, ast.Attribute):
+            continue
+        if c.func.attr == "replace" and c.args and isinstance(c.args[0], ast.Constant) and str(c.args[0].value).strip() in words:
+            n += 1
+            ctx.bad("C08.table", fn, c, f"`.replace({c.args[0].value!r}, ...)` rewrites the letters wherever they occur: identifiers that contain them (YOR374W, RAND1, ORF19) are changed and the rule names the wrong genes")
+        if c.func.attr == "compile" and norm(c.func.value) == "re" and c.args and isinstance(c.args[0], ast.Constant) and isinstance(c.args[0].value, str):
+            pat = c.args[0].value
+            if not any(w in pat for w in ("AND", "OR")) or "|" in pat and "(" in pat and "keyword" in norm(enclosing_stmt(c)):
+                continue
+            n += 1
+            items = list(sre.parse(pat))
+            bounded = len(items) >= 3 and items[0] == (sc.AT, sc.AT_BOUNDARY) and items[-1] == (sc.AT, sc.AT_BOUNDARY)
+            if bounded:
+                ctx.ok("C08.table", fn, c, f"operator spelling `{pat}` is matched as a whole word only")
+            else:
+                ctx.bad("C08.table", fn, c, f"the operator pattern `{pat}` is not anchored by word boundaries on both sides: it also matches inside identifiers")
+    if n == 0:
+        raise AnalysisError("GPR.from_string: the upper-case operator handling was not found")
+
+
+def check_equivalence(ctx) -> None:
+    """__eq__ decides logical equivalence of the two symbolic forms with `equals` on those very expressions: anything
+    that compares up to a renaming of the genes (bool_map) or by atoms/shape calls different rules equal."""
+    fn = ctx.prog.func("cobra.core.gene", "GPR.__eq__")
+    rets = [r for r in walk_local(fn.node) if isinstance(r, ast.Return) and r.value is not None]
+    bad = [c for c in walk_local(fn.node) if isinstance(c, ast.Call) and norm(c.func).split(".")[-1] in ("bool_map", "simplify_logic", "atoms", "count_ops")]
+    last = max(rets, key=lambda r: r.lineno) if rets else None
+    ok = last is not None and isinstance(last.value, ast.Call) and isinstance(last.value.func, ast.Attribute) and last.value.func.attr == "equals" and len(last.value.args) == 1
+    if bad:
+        ctx.bad("C08.siblings", fn, enclosing_stmt(bad[0]), f"`{norm(bad[0])}`: equality is decided by a test that is blind to which gene sits where (equal up to renaming / same atoms): '(a or b) and c' == '(a or c) and b'")
+    elif ok:
+        ctx.ok("C08.siblings", fn, last, "general case: sympy equivalence (`equals`) of the two symbolic forms")
+    else:
+        ctx.bad("C08.siblings", fn, last or fn.node, "the general case of __eq__ is not decided by `equals` on the symbolic forms")
+
+
 def check_nocache(ctx) -> None:
     prog, eff = ctx.prog, ctx.eff
     gpr = prog.cls("GPR")
@@ -368,6 +417,27 @@ def check_nocache(ctx) -> None:
                 if name in allowed and (allowed[name] is None or attr in allowed[name]):
                     continue
                 ctx.bad("C08.nocache", m, node, f"GPR.{name} stores derived state in self.{attr}: in-place rewrites of the tree (remove_genes, rename_genes) do not invalidate it, so later reads describe the old rule")
+    # the cached gene set is read through the `genes` property only (which re-derives it first)
+    for name, ms in gpr.methods.items():
+        if name in ("genes", "update_genes", "__init__", "copy", "__copy__", "__deepcopy__", "from_string", "from_symbolic"):
+            continue
+        for m in ms:
+            for n in walk_local(m.node):
+                if isinstance(n, ast.Attribute) and n.attr == "_genes" and isinstance(n.ctx, ast.Load) and isinstance(n.value, ast.Name) and n.value.id == (m.self_name or "self"):
+                    ctx.bad("C08.nocache", m, enclosing_stmt(n), f"GPR.{name} reads the cached gene set `self._genes` directly: it holds identifier strings as of the last update, so the answer depends on the type of the caller's collection (a DictList of Gene objects never intersects it) and goes stale after in-place rewrites")
+    # update_genes re-derives the set on every path (an emptied rule has no genes, not the old ones)
+    ug = prog.func("cobra.core.gene", "GPR.update_genes")
+    gg = ctx.flow.cfg(ug)
+    writes = set()
+    for n in walk_local(ug.node):
+        if isinstance(n, ast.Assign) and any(isinstance(t, ast.Attribute) and t.attr == "_genes" and isinstance(t.value, ast.Name) and t.value.id == (ug.self_name or "self") for t in n.targets):
+            writes |= {x for x in gg.node_containing(n) if x.kind != "with_exit"}
+    exits = [x for x in gg.nodes if x.kind == "exit"]
+    w = gg.reaches_without(exits, lambda x: x in writes, edge_ok=lambda a, b, l: l != "exc")
+    if not writes or w is not None:
+        ctx.bad("C08.nocache", ug, ug.node, "update_genes can return without assigning the gene set (e.g. for a rule without body): after a rule has been emptied in place GPR.genes still reports the genes of the old rule")
+    else:
+        ctx.ok("C08.nocache", ug, ug.node, "every path through update_genes assigns the gene set")
     g = prog.func("cobra.core.gene", "GPR.genes")
     if any(isinstance(n, ast.Call) and norm(n.func).endswith("update_genes") for n in walk_local(g.node)):
         ctx.ok("C08.nocache", g, "self.update_genes()", "the gene set is re-derived from the tree on every read")
